@@ -18,7 +18,8 @@ DECIDED = ["R11a key-value store and indexes are co-updated (MUST, 4 primitives 
            "R11f back-fill decides node/edge by a graph lookup",
            "R19t slot states of the hash tables are written only by insert / remove / full rehash (WHO table, shared)",
            "R09d insert_or_replace reports None only after an insertion (shared with C09)",
-           "R19u a capacity change of a hash table runs the full rebuild (shared)"]
+           "R19u a capacity change of a hash table runs the full rebuild (shared)",
+           "R09f stable hashes are computed only by the hash-map implementation (WHO; identity is equality)"]
 UNDECIDED = ["contents of the index multimap over histories (needs execution)"]
 
 DB = "agdb::db::DbImpl::"
@@ -190,6 +191,7 @@ def run(ctx):
     from rules import maps_common
     maps_common.slot_state_rule(ctx)
     maps_common.resize_rehash_rule(ctx)
+    maps_common.hash_identity_rule(ctx)
     # the index update / undo command is chosen by what insert_or_replace reports (R09d, shared with C09)
     from rules import C09
     C09.insert_or_replace_contract_rule(ctx)
